@@ -375,6 +375,24 @@ def generate(rng, tier):
     BH([]); BH([("p", "0111")]); BH([("a", "51"), ("n", "0110"), ("c", "ac")]); BH([("p", "4c0105")]); BH([("a", "0501"), ("p", "51")]); BH([("n", "4c00"), ("a", "51")])
     BH([("p", "r:63:20+51+r:68:20"), ("a", "r:64:20+r:67:1+r:68:20")])
 
+    # --- COMBINATIONS: every special rendering x every 'mode-switching looking' context x before / after x nested or not
+    specials = ["00", "51", "5a", "60", "4f", "0100", "0105", "0110", "0117", "01ad", "020add", "0200ff", "4c4c+r:11:76", "026869"]
+    ctx = [("6a", ""), ("ab", ""), ("69", ""), ("ac", ""), ("63", "68"), ("64", "68"), ("66", "68"), ("6367", "68"), ("6368", ""),
+           ("67", ""), ("68", ""), ("4c4c+r:aa:76", ""), ("00", ""), ("51", ""), ("6a00", ""), ("0105", ""), ("fd", "")]
+    cat = lambda *xs: "+".join(x for x in xs if x)
+    for sp in specials:
+        for pre, suf in ctx:
+            RT(cat(pre, sp, suf)); RT(cat(sp, pre, suf, sp))
+            RT(cat("63", pre, sp, suf, "68")); RT(cat("51", "64", sp, pre, suf, "67", pre, sp, suf, "68", sp))
+    RT("6a00"); RT("006a0568656c6c6f00026869"); RT("006a"); RT("6a5a"); RT("6a0110"); RT("6a00006a00")
+    tsp = ["0", "1", "10", "16", "OP_0", "OP_16", "OP_1NEGATE", "00", "05", "17", "ad", "0add", "00ff", "ab" * 76]
+    tctx = [("OP_RETURN", ""), ("OP_CODESEPARATOR", ""), ("OP_VERIFY", ""), ("OP_CHECKSIG", ""), ("OP_IF", "OP_ENDIF"), ("OP_NOTIF", "OP_ENDIF"), ("OP_VERNOTIF", "OP_ENDIF"),
+            ("OP_IF OP_ELSE", "OP_ENDIF"), ("OP_IF OP_ENDIF", ""), ("OP_ELSE", ""), ("OP_ENDIF", ""), ("cd" * 76, ""), ("0", ""), ("OP_RETURN 0", "")]
+    tj = lambda *xs: " ".join(x for x in xs if x)
+    for sp in tsp:
+        for pre, suf in tctx:
+            FA(tj(pre, sp, suf)); FA(tj(sp, pre, suf, sp)); FA(tj("OP_IF", pre, sp, suf, "OP_ELSE", sp, pre, suf, "OP_ENDIF", sp))
+
     # --- P2PKH scripts built through ASM text
     for h in ["r:00:20", "r:11:20", "r:10:20", "r:ff:20", "l:7:20", "l:8:20", "1000000000000000000000000000000000000000", "r:11:19", "r:11:21", ""]:
         cases.append(("p2pkh.locking_script", [h]))
